@@ -8,20 +8,20 @@ namespace GenP40
 def ParseVector_for2 (abv : (List Nat)) : (Nat × Nat) → Go.Ctl (Nat × Nat) (Go.Res (Nat × Nat × Nat × Nat × Nat × Nat × Nat × Nat × Nat))
   | (orderi, slci) =>
     match (cond (Nat.beq slci (0 : Nat))
-        (Go.index GenV40.tbl_order (0 : Nat) (none) fun t5 =>
-        Go.index t5 orderi (none) fun t6 =>
-        some (!(Go.strEq abv t6)))
+        (Go.index GenV40.tbl_order (0 : Nat) (none) fun t7 =>
+        Go.index t7 orderi (none) fun t8 =>
+        some (!(Go.strEq abv t8)))
         (some false) : Option Bool) with
     | none => Go.Ctl.ret Go.Res.panic
-    | some c7 =>
-    cond (c7 || (Nat.beq slci (List.length GenV40.tbl_order)))
+    | some c9 =>
+    cond (c9 || (Nat.beq slci (List.length GenV40.tbl_order)))
       (Go.Ctl.ret (Go.Res.err (Go.Err.mk 3 []) /- ErrInvalidMetricOrder -/))
-      (Go.index GenV40.tbl_order slci (Go.Ctl.ret Go.Res.panic) fun t8 =>
-      Go.index t8 orderi (Go.Ctl.ret Go.Res.panic) fun t9 =>
-      let out := (Go.strEq abv t9)
+      (Go.index GenV40.tbl_order slci (Go.Ctl.ret Go.Res.panic) fun t10 =>
+      Go.index t10 orderi (Go.Ctl.ret Go.Res.panic) fun t11 =>
+      let out := (Go.strEq abv t11)
       let orderi := (Nat.add orderi (1 : Nat))
-      Go.index GenV40.tbl_order slci (Go.Ctl.ret Go.Res.panic) fun t10 =>
-      match (cond (Nat.beq orderi (List.length t10))
+      Go.index GenV40.tbl_order slci (Go.Ctl.ret Go.Res.panic) fun t12 =>
+      match (cond (Nat.beq orderi (List.length t12))
         (let slci := (Nat.add slci (1 : Nat))
         let orderi := (0 : Nat)
         (slci, orderi))
@@ -35,12 +35,12 @@ def ParseVector_for2 (abv : (List Nat)) : (Nat × Nat) → Go.Ctl (Nat × Nat) (
 def ParseVector_for1 (vector : (List Nat)) : (Nat × Nat × Nat × Nat × Nat × Nat × Nat × Nat × Nat × Nat × Nat × Nat × Nat) → Go.Ctl (Nat × Nat × Nat × Nat × Nat × Nat × Nat × Nat × Nat × Nat × Nat × Nat × Nat) (Go.Res (Nat × Nat × Nat × Nat × Nat × Nat × Nat × Nat × Nat))
   | (i, cut, orderi, slci, u0, u1, u2, u3, u4, u5, u6, u7, u8) =>
     match (cond (!(Nat.beq i (List.length vector)))
-        (Go.index vector i (none) fun t1 =>
-        some (!(Nat.beq t1 (47 : Nat))))
+        (Go.index vector i (none) fun t3 =>
+        some (!(Nat.beq t3 (47 : Nat))))
         (some false) : Option Bool) with
     | none => Go.Ctl.ret Go.Res.panic
-    | some c2 =>
-    cond c2
+    | some c4 =>
+    cond c4
       (Go.Ctl.next (i, cut, orderi, slci, u0, u1, u2, u3, u4, u5, u6, u7, u8))
       (let m := i
       match (cond (Nat.blt (List.length vector) i)
@@ -48,13 +48,13 @@ def ParseVector_for1 (vector : (List Nat)) : (Nat × Nat × Nat × Nat × Nat ×
         m)
         (m)) with
       | m =>
-      Go.slice vector cut m (Go.Ctl.ret Go.Res.panic) fun t3 =>
-      let pt := t3
+      Go.slice vector cut m (Go.Ctl.ret Go.Res.panic) fun t5 =>
+      let pt := t5
       let cut := i
       cond (!(Go.hasPrefix pt ([47] : List Nat) /- / -/))
         (Go.Ctl.ret (Go.Res.err (Go.Err.mk 4 []) /- ErrInvalidMetricValue -/))
-        (Go.sliceFrom pt (1 : Nat) (Go.Ctl.ret Go.Res.panic) fun t4 =>
-        let pt := t4
+        (Go.sliceFrom pt (1 : Nat) (Go.Ctl.ret Go.Res.panic) fun t6 =>
+        let pt := t6
         match (Go.cut pt ([58] : List Nat) /- : -/) with
         | (abv, v, _) =>
         match Go.forN (64 : Nat) /- fuel of an unconditional for: translator option -/ (orderi, slci)
@@ -75,30 +75,38 @@ def ParseVector_for1 (vector : (List Nat)) : (Nat × Nat × Nat × Nat × Nat ×
 def ParseVector (vector : (List Nat)) : (Go.Res (Nat × Nat × Nat × Nat × Nat × Nat × Nat × Nat × Nat)) :=
   cond (!(Go.hasPrefix vector ([67, 86, 83, 83, 58, 52, 46, 48] : List Nat) /- CVSS:4.0 -/))
     (Go.Res.err (Go.Err.mk 1 []) /- ErrInvalidCVSSHeader -/)
-    (Go.sliceFrom vector (8 : Nat) (Go.Res.panic) fun t0 =>
-    let vector := t0
-    let u0 := (0 : Nat)
-    let u1 := (0 : Nat)
-    let u2 := (0 : Nat)
-    let u3 := (0 : Nat)
-    let u4 := (0 : Nat)
-    let u5 := (0 : Nat)
-    let u6 := (0 : Nat)
-    let u7 := (0 : Nat)
-    let u8 := (0 : Nat)
-    let cut := (0 : Nat)
-    let slci := (0 : Nat)
-    let orderi := (0 : Nat)
-    let i := (1 : Nat)
-    match Go.forN (Nat.add (List.length vector) (2 : Nat)) (i, cut, orderi, slci, u0, u1, u2, u3, u4, u5, u6, u7, u8)
-        (fun (i, cut, orderi, slci, u0, u1, u2, u3, u4, u5, u6, u7, u8) => (Nat.ble i (List.length vector)))
-        (fun (i, cut, orderi, slci, u0, u1, u2, u3, u4, u5, u6, u7, u8) => let i := (Nat.add i (1 : Nat)); (i, cut, orderi, slci, u0, u1, u2, u3, u4, u5, u6, u7, u8))
-        (GenP40.ParseVector_for1 vector) with
-    | Go.Loop.ret r => r
-    | Go.Loop.fuel => Go.Res.panic
-    | Go.Loop.done (i, cut, orderi, slci, u0, u1, u2, u3, u4, u5, u6, u7, u8) =>
-    cond (Nat.beq slci (0 : Nat))
-      (Go.Res.err (Go.Err.mk 2 []) /- ErrTooShortVector -/)
-      (Go.Res.ok (u0, u1, u2, u3, u4, u5, u6, u7, u8)))
+    (match (cond (Nat.blt (8 : Nat) (List.length vector))
+        (Go.index vector (8 : Nat) (none) fun t0 =>
+        some (!(Nat.beq t0 (47 : Nat))))
+        (some false) : Option Bool) with
+    | none => Go.Res.panic
+    | some c1 =>
+    cond c1
+      (Go.Res.err (Go.Err.mk 1 []) /- ErrInvalidCVSSHeader -/)
+      (Go.sliceFrom vector (8 : Nat) (Go.Res.panic) fun t2 =>
+      let vector := t2
+      let u0 := (0 : Nat)
+      let u1 := (0 : Nat)
+      let u2 := (0 : Nat)
+      let u3 := (0 : Nat)
+      let u4 := (0 : Nat)
+      let u5 := (0 : Nat)
+      let u6 := (0 : Nat)
+      let u7 := (0 : Nat)
+      let u8 := (0 : Nat)
+      let cut := (0 : Nat)
+      let slci := (0 : Nat)
+      let orderi := (0 : Nat)
+      let i := (1 : Nat)
+      match Go.forN (Nat.add (List.length vector) (2 : Nat)) (i, cut, orderi, slci, u0, u1, u2, u3, u4, u5, u6, u7, u8)
+          (fun (i, cut, orderi, slci, u0, u1, u2, u3, u4, u5, u6, u7, u8) => (Nat.ble i (List.length vector)))
+          (fun (i, cut, orderi, slci, u0, u1, u2, u3, u4, u5, u6, u7, u8) => let i := (Nat.add i (1 : Nat)); (i, cut, orderi, slci, u0, u1, u2, u3, u4, u5, u6, u7, u8))
+          (GenP40.ParseVector_for1 vector) with
+      | Go.Loop.ret r => r
+      | Go.Loop.fuel => Go.Res.panic
+      | Go.Loop.done (i, cut, orderi, slci, u0, u1, u2, u3, u4, u5, u6, u7, u8) =>
+      cond (Nat.beq slci (0 : Nat))
+        (Go.Res.err (Go.Err.mk 2 []) /- ErrTooShortVector -/)
+        (Go.Res.ok (u0, u1, u2, u3, u4, u5, u6, u7, u8))))
 
 end GenP40
